@@ -47,6 +47,12 @@ type vC07Case struct {
 	Hist []vC07Op `json:"hist"`
 	// relay (line A--B--C, A refuses connections with C): does the relay B trust the publisher C
 	RelayTrusts bool `json:"relay_trusts,omitempty"`
+	// kind trustj: the trusted_peers value of the configuration section as written in the file: TP in file order
+	// (-1 = "*"), Form "" (key present) | "absent" | "null"; Env: ApplyEnvVars (nothing set) after LoadJSON, as
+	// the configuration Manager does
+	TP   []int  `json:"tp,omitempty"`
+	Form string `json:"form,omitempty"`
+	Env  bool   `json:"env,omitempty"`
 }
 
 func (c *vC07Case) norm() {
@@ -68,9 +74,35 @@ func (c *vC07Case) norm() {
 	for i := range c.Hist {
 		c.Hist[i].Peer = clamp(c.Hist[i].Peer)
 	}
-	if c.Kind != "deliver" && c.Kind != "relay" {
+	if c.Kind != "deliver" && c.Kind != "relay" && c.Kind != "trustj" {
 		c.Kind = "trust"
 	}
+	for i := range c.TP {
+		if c.TP[i] < 0 {
+			c.TP[i] = -1
+		} else {
+			c.TP[i] = clamp(c.TP[i])
+		}
+	}
+	if c.Form != "absent" && c.Form != "null" {
+		c.Form = ""
+	}
+}
+
+// the Gallina rendering of the trusted_peers value: option (list tentry)
+func vC07CoqTP(c *vC07Case) string {
+	if c.Form != "" {
+		return "None"
+	}
+	xs := make([]string, len(c.TP))
+	for i, p := range c.TP {
+		if p < 0 {
+			xs[i] = "TStar"
+		} else {
+			xs[i] = fmt.Sprintf("TPeer %d", p)
+		}
+	}
+	return "(Some " + cqList(xs) + ")"
 }
 
 func vC07CoqHist(h []vC07Op) string {
@@ -115,6 +147,8 @@ type vC07Node struct {
 	// optional, set before start: real ids for some indices; heads rebroadcast interval (default 200ms)
 	known       map[int]peer.ID
 	rebroadcast string
+	// optional, set before start: the trusted_peers value as written (kind trustj); overrides star/list
+	jcase *vC07Case
 }
 
 // refuses every connection with one peer, in both directions
@@ -167,9 +201,33 @@ func (n *vC07Node) start(star bool, list []int, peer1 peer.ID) error {
 	if star {
 		tp = append(tp, "*")
 	}
-	raw, _ := json.Marshal(map[string]interface{}{"cluster_name": "vc07", "trusted_peers": tp, "rebroadcast_interval": n.rebroadcast})
+	sec := map[string]interface{}{"cluster_name": "vc07", "trusted_peers": tp, "rebroadcast_interval": n.rebroadcast}
+	if jc := n.jcase; jc != nil {
+		switch jc.Form {
+		case "absent":
+			delete(sec, "trusted_peers")
+		case "null":
+			sec["trusted_peers"] = nil
+		default:
+			tp = []string{}
+			for _, i := range jc.TP {
+				if i < 0 {
+					tp = append(tp, "*")
+				} else {
+					tp = append(tp, peer.Encode(n.ids[i]))
+				}
+			}
+			sec["trusted_peers"] = tp
+		}
+	}
+	raw, _ := json.Marshal(sec)
 	if err := cfg.LoadJSON(raw); err != nil {
 		return err
+	}
+	if n.jcase != nil && n.jcase.Env {
+		if err := cfg.ApplyEnvVars(); err != nil {
+			return err
+		}
 	}
 	cfg.DatastoreNamespace = "vc07"
 	cc, err := New(n.h, n.d, n.ps, cfg, inmem.New())
@@ -453,6 +511,39 @@ func vC07Gen(seed uint64, n int) []vC07Case {
 			h = append(h, o)
 		}
 	}
+	// the configuration section as written in the file: key absent / null / list with "*" at any position, then
+	// (half of them) the environment pass the Manager applies after loading
+	fixedJ := []vC07Case{
+		{Kind: "trustj", Form: "absent"}, {Kind: "trustj", Form: "null"}, {Kind: "trustj", Form: "absent", Env: true},
+		{Kind: "trustj", Form: "null", Env: true}, {Kind: "trustj", TP: []int{}}, {Kind: "trustj", TP: []int{}, Env: true},
+		{Kind: "trustj", TP: []int{-1}, Env: true}, {Kind: "trustj", TP: []int{2, -1, 3}}, {Kind: "trustj", TP: []int{-1, 2}, Env: true},
+		{Kind: "trustj", TP: []int{1, 2}, Env: true}, {Kind: "trustj", Form: "absent", Hist: []vC07Op{{true, 2}}},
+	}
+	out = append(out, fixedJ...)
+	for k := 0; k < n/2; k++ {
+		c := vC07Case{Kind: "trustj", Env: r.chance(50)}
+		switch {
+		case r.chance(15):
+			c.Form = "absent"
+		case r.chance(15):
+			c.Form = "null"
+		default:
+			c.TP = []int{}
+			for p := 0; p < vC07NPeers; p++ {
+				if r.chance(30) {
+					c.TP = append(c.TP, p)
+				}
+			}
+			if r.chance(20) {
+				at := r.intn(len(c.TP) + 1)
+				c.TP = append(c.TP[:at], append([]int{-1}, c.TP[at:]...)...)
+			}
+		}
+		for i, m := 0, r.rng(0, 3); i < m; i++ {
+			c.Hist = append(c.Hist, vC07Op{Trust: r.chance(50), Peer: r.intn(vC07NPeers)})
+		}
+		out = append(out, c)
+	}
 	// deliveries
 	out = append(out,
 		vC07Case{Kind: "deliver", List: []int{1}},
@@ -588,6 +679,26 @@ func TestVerifCrdtC07(t *testing.T) {
 	if node != nil {
 		node.close()
 	}
+	for i := range cases {
+		c := cases[i]
+		if c.Kind != "trustj" {
+			continue
+		}
+		jn, err := vC07NewHost()
+		if err == nil {
+			jn.jcase = &cases[i]
+			err = jn.start(false, nil, vC07FakeID(1))
+		}
+		if err != nil {
+			t.Fatalf("trustj case %d: infrastructure: %v", i, err)
+		}
+		jn.apply(c.Hist)
+		for p := 0; p < vC07NPeers; p++ {
+			obsTrust[i] = append(obsTrust[i], jn.cc.IsTrustedPeer(context.Background(), jn.ids[p]))
+		}
+		jn.close()
+		out.count("trustj-instances")
+	}
 	wg.Wait()
 	for i, c := range cases {
 		switch c.Kind {
@@ -603,6 +714,14 @@ func TestVerifCrdtC07(t *testing.T) {
 			out.count(fmt.Sprintf("trust/hist%02d", len(c.Hist)))
 			out.add(fmt.Sprintf("CTrust %s %s %s %s", cqBool(c.Star), cqListN(c.List), vC07CoqHist(c.Hist), cqList(xs)),
 				c, obsTrust[i], len(c.Hist) > 0)
+		case "trustj":
+			xs := make([]string, len(obsTrust[i]))
+			for j, b := range obsTrust[i] {
+				xs[j] = cqBool(b)
+			}
+			out.count("trustj/form=" + c.Form + fmt.Sprintf("/env=%v", c.Env))
+			out.add(fmt.Sprintf("CTrustJ %s %s %s %s", vC07CoqTP(&c), cqBool(c.Env), vC07CoqHist(c.Hist), cqList(xs)),
+				c, obsTrust[i], true)
 		case "deliver":
 			if dr[i].err != nil {
 				t.Fatalf("deliver case %d: infrastructure: %v", i, dr[i].err)
